@@ -814,6 +814,7 @@ struct Used {
     session: bool,
     dropped: bool,
     error_path: bool,
+    bare_recreate: bool,
 }
 
 impl Used {
@@ -861,6 +862,7 @@ impl Used {
     fn features(&self) -> String {
         let mut out = Vec::new();
         for (on, name) in [
+            (self.bare_recreate, "bare-recreate"),
             (self.image && self.cell_personality, "cell-personality"),
             (self.decorated_blank, "decorated-blank"),
             (self.error_path, "error-path"),
@@ -969,7 +971,15 @@ fn run(ctx: &Ctx, src: &mut Src) -> WorldResult {
             }
             _ => {
                 // Recreate: clear + new(clear=true), optionally with resize and whatever is left on the screen
-                renderer.clear(&mut term).map_err(|e| Violation::new(P, "C01.error", "clear", format!("{e:?}")))?;
+                // (bare: the old renderer is simply forgotten, what it drew is what the terminal
+                // "showed before")
+                let bare = !ctx.avoids("bare-recreate") && src.chance(1, 4);
+                if bare {
+                    used.bare_recreate = true;
+                    src.probe("renderer-recreated-without-clear");
+                } else {
+                    renderer.clear(&mut term).map_err(|e| Violation::new(P, "C01.error", "clear", format!("{e:?}")))?;
+                }
                 term.deliver_all();
                 let resize = src.chance(1, 2);
                 if resize {
